@@ -910,7 +910,9 @@ func runStatic(r *vlib.Run, cs staticCase, w *world, s *subSpec, slow int, mutat
 			rounds = append(rounds, map[string]interface{}{"round": i, "responses": compactLog(ro.Resp, 60)})
 		}
 		m["rounds_observed"] = rounds
-		m["rpc_error"] = fmt.Sprint(obs.Err)
+		if obs.Stuck == "" {
+			m["rpc_error"] = fmt.Sprint(obs.Err)
+		}
 		return m
 	}
 	if obs.Stuck != "" {
@@ -1913,10 +1915,10 @@ func body(r *vlib.Run) {
 	if r.OnlyTrial < 0 || r.OnlyMode == "exhaustive" {
 		runExhaustive(r)
 	}
-	r.ForTrials("static", r.N(4000, 60000), func(trial int, rng *rand.Rand) {
+	r.ForTrials("static", r.N(4000, 100000), func(trial int, rng *rand.Rand) {
 		runRandomStatic(r, trial, rng)
 	})
-	r.ForTrials("concurrent", r.N(200, 2000), func(trial int, rng *rand.Rand) {
+	r.ForTrials("concurrent", r.N(200, 3000), func(trial int, rng *rand.Rand) {
 		runConcurrent(r, trial, rng)
 	})
 }
